@@ -37,6 +37,22 @@ def workbooks():
     # w3: 'Main' is the SECOND sheet (an entry given by title must follow it, an entry given by numbers must not)
     w3 = [('Data', {(0, 0): 9, (1, 1): 4}),
           ('Main', {(0, 0): '=B1&"z"', (1, 0): 'q', (1, 1): '=IF(B1="q",1,2)', (3, 0): 'eval(1)'})]
+    # a last sheet with one formula per supported function (several criteria pairs, nested calls, patterns): whatever a translator
+    # collects on the way (sets, dicts, caches) must not leak its iteration order or its history into the text
+    feats = ['=SUM(A1:B3,C1)', '=AVERAGE(A1:B3)', '=MIN(A1:A3,B1)', '=MAX(A1:B3)', '=COUNT(A1:C3)', '=COUNTBLANK(A1:C4)', '=AND(A1>0,B1>0,C1>0)', '=OR(A1>5,B1>5)',
+             '=IF(A1>1,"y","n")', '=IFS(A1>5,"a",A1>1,"b",TRUE,"c")', '=IFERROR(1/A4,"e")', '=VLOOKUP(2,A1:C3,3,FALSE)', '=MATCH(3,A1:A3,0)', '=XMATCH(3,A1:A3,0,-1)',
+             '=INDEX(A1:C3,2,3)', '=COLUMN(C1)+COLUMN()', '=ADDRESS(2,3)', '=DATE(2024,2,29)', '=YEAR(DATE(2024,2,29))+MONTH(DATE(2024,2,29))+DAY(DATE(2024,2,29))',
+             '=EDATE(DATE(2024,1,31),1)', '=EOMONTH(DATE(2024,1,31),1)', '=DATEDIF(DATE(2020,1,1),DATE(2024,3,1),"M")', '=NETWORKDAYS(DATE(2024,1,1),DATE(2024,1,31))',
+             '=ROUND(A1/3,2)+ROUNDUP(B1/3,1)+ROUNDDOWN(C1/3,0)', '=LEFT(D1,2)&RIGHT(D1,1)&MID(D1,2,2)', '=SEARCH("p?",D1)', '=CONCATENATE(D1,"-",A1)', '=VALUE("12.5")',
+             '=SUMIF(A1:A3,">1",B1:B3)', '=SUMIFS(C1:C3,A1:A3,">0",B1:B3,"<9",C1:C3,"<>5")', '=COUNTIFS(A1:A3,">0",B1:B3,"<9",C1:C3,">1",D1:D3,"a*")',
+             '=AVERAGEIFS(C1:C3,A1:A3,">0",B1:B3,">1")', '=SUMIFS(C1:C3,D1:D3,"*p*",A1:A3,2)', '=A1%+-B1*(C1-1)&"t"=D2']
+    fsheet = {(0, 0): 1, (0, 1): 2, (0, 2): 3, (1, 0): 4, (1, 1): 5, (1, 2): 6, (2, 0): 7, (2, 1): 8, (2, 2): 9, (3, 0): 'apple', (3, 1): 'pear', (3, 2): 'avocado'}
+    for i, f in enumerate(feats):
+        fsheet[(5, i)] = f
+    w1.append(('Features', dict(fsheet)))
+    fsheet2 = dict(fsheet)
+    fsheet2[(0, 0)] = 2
+    w2.append(('Features', fsheet2))
     return {'w1': w1, 'w2': w2, 'w3': w3}
 
 
